@@ -43,8 +43,132 @@ fn passthrough() {
     eprintln!("[selftest] shim passthrough ok");
 }
 
+/// The simulated shared-memory primitives: contention blocks in the simulator (never in the
+/// OS), every operation is a scheduling point, lock-order deadlocks are detected.
+fn sync_primitives() {
+    use ldpc_toolbox::verif_seam::std::sync::atomic::{AtomicUsize, Ordering};
+    use ldpc_toolbox::verif_seam::std::sync::{Arc, Condvar, Mutex};
+    let cfg = |seed: u64| dstsim::Config { sched_seed: seed, max_steps: 200_000, ..dstsim::Config::default() };
+    let mut lost_updates = 0;
+    let mut lock_deadlocks = 0;
+    for seed in 0..200u64 {
+        // 1. mutual exclusion with a yield inside the critical section
+        let out = dstsim::run(cfg(seed), || {
+            let m = Arc::new(Mutex::new(0u32));
+            let hs: Vec<_> = (0..3)
+                .map(|_| {
+                    let m = m.clone();
+                    sthread::spawn(move || {
+                        for _ in 0..20 {
+                            let mut g = m.lock().unwrap();
+                            let v = *g;
+                            dstsim::yield_now();
+                            *g = v + 1;
+                        }
+                    })
+                })
+                .collect();
+            for h in hs {
+                h.join().unwrap();
+            }
+            let v = *m.lock().unwrap();
+            v
+        });
+        match out.result {
+            dstsim::RunResult::Done(60) => {}
+            other => harness_error(&format!("selftest: mutex scenario seed {}: {:?}", seed, other.kind())),
+        }
+        // 2. condition variable hand-off, scoped threads borrowing the stack
+        let out = dstsim::run(cfg(seed), || {
+            let q = Mutex::new(std::collections::VecDeque::new());
+            let cv = Condvar::new();
+            let mut got = Vec::new();
+            sthread::scope(|s| {
+                s.spawn(|| {
+                    for i in 0..10 {
+                        q.lock().unwrap().push_back(i);
+                        cv.notify_one();
+                    }
+                });
+                let mut g = q.lock().unwrap();
+                while got.len() < 10 {
+                    while let Some(x) = g.pop_front() {
+                        got.push(x);
+                    }
+                    if got.len() < 10 {
+                        g = cv.wait(g).unwrap();
+                    }
+                }
+            });
+            got
+        });
+        match out.result {
+            dstsim::RunResult::Done(v) if v == (0..10).collect::<Vec<_>>() => {}
+            other => harness_error(&format!("selftest: condvar scenario seed {}: {}", seed, other.kind())),
+        }
+        // 3. atomics are scheduling points: a load/store increment loses updates under some schedule
+        let out = dstsim::run(cfg(seed), || {
+            let a = Arc::new(AtomicUsize::new(0));
+            let hs: Vec<_> = (0..2)
+                .map(|_| {
+                    let a = a.clone();
+                    sthread::spawn(move || {
+                        for _ in 0..5 {
+                            let v = a.load(Ordering::SeqCst);
+                            a.store(v + 1, Ordering::SeqCst);
+                        }
+                    })
+                })
+                .collect();
+            for h in hs {
+                h.join().unwrap();
+            }
+            a.load(Ordering::SeqCst)
+        });
+        if let dstsim::RunResult::Done(v) = out.result {
+            if v < 10 {
+                lost_updates += 1;
+            }
+        }
+        // 4. lock-order inversion: detected as a deadlock under some schedule, never a hang
+        let out = dstsim::run(cfg(seed), || {
+            let a = Arc::new(Mutex::new(()));
+            let b = Arc::new(Mutex::new(()));
+            let (a2, b2) = (a.clone(), b.clone());
+            let h = sthread::spawn(move || {
+                let _x = b2.lock().unwrap();
+                let _y = a2.lock().unwrap();
+            });
+            {
+                let _x = a.lock().unwrap();
+                let _y = b.lock().unwrap();
+            }
+            let _ = h.join();
+        });
+        if matches!(out.result, dstsim::RunResult::Deadlock(_)) {
+            lock_deadlocks += 1;
+        }
+        // 5. recv_timeout on the simulated clock
+        let out = dstsim::run(cfg(seed), || {
+            let (_tx, rx) = mpsc::channel::<u8>();
+            let t0 = SInstant::now();
+            let r = rx.recv_timeout(std::time::Duration::from_secs(3600));
+            (r.is_err(), SInstant::now() - t0)
+        });
+        match out.result {
+            dstsim::RunResult::Done((true, d)) if d >= std::time::Duration::from_secs(3600) => {}
+            other => harness_error(&format!("selftest: recv_timeout scenario seed {}: {}", seed, other.kind())),
+        }
+    }
+    if lost_updates == 0 || lock_deadlocks == 0 {
+        harness_error(&format!("selftest: no schedule exposed the lost update ({}) / the lock-order deadlock ({})", lost_updates, lock_deadlocks));
+    }
+    eprintln!("[selftest] simulated Mutex/Condvar/scope/atomics/recv_timeout ok ({} of 200 schedules lose an update, {} deadlock on inverted lock order)", lost_updates, lock_deadlocks);
+}
+
 pub fn main(opts: &Opts) -> ! {
     passthrough();
+    sync_primitives();
     let n: u64 = (1500.0 * opts.scale) as u64;
     let stop = AtomicBool::new(false);
     let mut total = 0u64;
